@@ -19,7 +19,7 @@
     BatchState = BATCHRUNNING before every completed batch, and compares it after every step).
     The theorems that do not need it (state mirror, creator control, bounds, no panic) hold for
     ALL histories. *)
-From Irismod Require Import Oracle.Model Oracle.Check Oracle.ProofsList Oracle.Proofs.
+From Irismod Require Import Oracle.Model Oracle.Check Oracle.ProofsList Oracle.Proofs Oracle.Sound.
 From Coq Require Import QArith.
 Open Scope Z_scope.
 
@@ -226,6 +226,23 @@ Theorem no_panic : forall (h : list step) (st : step), fst (exec (run init h) st
 Proof. exact no_panic_lemma. Qed.
 Print Assumptions no_panic.
 
+(** ** The checker and the theorems fit together
+
+    The decidable predicates that the correspondence check evaluates on the IMPLEMENTATION's
+    observations (agreement with the model step by step; the C17 trace predicate [prop_feed]:
+    mirror, creator control, expected value list after batches and edits, bound) hold of the
+    MODEL's own observation trace, for every history that is consistent with the service module's
+    bookkeeping ([run_consistent]: reported batch counter / threshold are the model's, batches are
+    completed while running) and whose response values are inside the float64 range: the checker
+    answers (-1, -1, 0).  So an alarm of the check on the implementation is always a difference
+    between the implementation and the proved model, never an excess demand of the predicate. *)
+Theorem model_passes_check :
+  forall (names : list Z) (steps : list step),
+    run_consistent init steps = true -> Forall step_ok steps ->
+    check_case (model_trace names init steps) = (-1, -1, 0).
+Proof. exact model_passes_check_lemma. Qed.
+Print Assumptions model_passes_check.
+
 (** ** Non-vacuity: a concrete history exercising every hypothesis *)
 Definition ex_out (m : Z) : output := [(0, Some (m, 0))].
 Definition ex_history : list step :=
@@ -259,6 +276,18 @@ Example c17_no_lh_edit_nonvacuous :
   no_lh_editb (run init (firstn 2 ex_history)) (firstn 8 (skipn 2 ex_history)) 7 = true
   /\ no_lh_editb (run init (firstn 2 ex_history)) (skipn 2 ex_history) 7 = false.
 Proof. split; vm_compute; reflexivity. Qed.
+
+Ltac c17_out := intros k d Hkd; simpl in Hkd; destruct Hkd as [E|[]]; inversion E; subst; split; vm_compute; reflexivity.
+Ltac c17_sev := first [exact I | right; intros o Ho; simpl in Ho; repeat (destruct Ho as [<-|Ho]; [c17_out|]); destruct Ho].
+Ltac c17_step := first [exact I | (unfold step_ok; cbn [snd]; repeat (constructor; [c17_sev|]); constructor)].
+
+Example c17_model_trace_nonvacuous :
+  run_consistent init ex_history = true /\ Forall step_ok ex_history
+  /\ length (model_trace [7; 8] init ex_history) = 13%nat.
+Proof.
+  split; [vm_compute; reflexivity|]. split; [|reflexivity].
+  unfold ex_history. repeat (constructor; [c17_step|]). constructor.
+Qed.
 
 (** the range hypothesis of theorem 2 holds of ordinary values *)
 Example c17_in_range : in_range (extract 0 (ex_out (-3))) /\ in_range (q_of_dec (123456789, 6)).
